@@ -3,6 +3,7 @@ import SymVerif.Model.Logic
 /-! Driver for C28.
 `f <sexpr>` – build the recipe bottom-up through the modelled API, print the canonical dump.
 `pw e<k>:<sexpr>;…` – `piecewise`.
+`domc …` – oracle-only op of the harness (domain rule with non-integer FiniteSet elements, not modelled): `SKIP`.
 sexpr := T | F | a<i> | n<i> | m<i> | x<c | x>=c | x<=c | x>c | x=c | x!=c | x@lo,hi | x#e,e,… | (and s…) | (or s…) | (xor s…) | (not s) | (nand s…) | (nor s…) | (xnor s…) -/
 open SymVerif SymVerif.Logic
 
@@ -159,6 +160,7 @@ def handle (line : String) : String :=
         | .error .domain => "E:Domain"
         | .ok (.expr e) => "e" ++ toString e
         | .ok (.pw l) => "pw " ++ ";".intercalate (l.map dumpBranch)
+  else if line.startsWith "domc " then "SKIP"   -- oracle-only family (FiniteSet elements pi, E, radicals, rationals)
   else "bad-op"
 
 def main : IO Unit := drvMain handle
